@@ -19,6 +19,30 @@ def mk(name, *args):
     return ast.Call(func=ast.Name(id=name, ctx=ast.Load()), args=list(args), keywords=[])
 
 
+def mk_item(whole, k):
+    """__item__(whole, k) with tuple literals and phi nodes seen through."""
+    if isinstance(whole, (ast.Tuple, ast.List)) and isinstance(k, int) and -len(whole.elts) <= k < len(whole.elts) \
+            and not any(isinstance(x, ast.Starred) for x in whole.elts):
+        return whole.elts[k]
+    if isinstance(whole, ast.Call) and isinstance(whole.func, ast.Name) and whole.func.id == '__phi__':
+        alts = [mk_item(a, k) for a in whole.args]
+        uniq, seen = [], set()
+        for a in alts:
+            t = u(a)
+            if t not in seen:
+                seen.add(t)
+                uniq.append(a)
+        return uniq[0] if len(uniq) == 1 else mk('__phi__', *uniq)
+    if isinstance(k, int) and k >= 0 and isinstance(whole, ast.Call) and isinstance(whole.func, ast.Name) and whole.func.id == '__elem__' \
+            and len(whole.args) == 1:
+        z = whole.args[0]
+        # the k-th component of an element of zip(a0, a1, ...) is an element of a_k
+        if isinstance(z, ast.Call) and isinstance(z.func, ast.Name) and z.func.id in ('zip', 'builtins.zip') and not z.keywords \
+                and k < len(z.args) and not any(isinstance(a, ast.Starred) for a in z.args):
+            return mk('__elem__', z.args[k])
+    return mk('__item__', whole, ast.Constant(k))
+
+
 def is_marker(node, name=None):
     return isinstance(node, ast.Call) and isinstance(node.func, ast.Name) and \
         (node.func.id == name if name else node.func.id in MARKERS)
@@ -93,6 +117,7 @@ class Expander:
         self.inline_depth = inline_depth
         self.inline_filter = inline_filter
         self.expand_self = expand_self
+        self.expand_globals = True
         self.tops = []
 
     # -------------------------------------------------------------- public
@@ -114,6 +139,9 @@ class Expander:
             scope = scope.parent
         if not isinstance(scope, FuncInfo):
             c = self.prog.canon_name(func, ident)
+            g = self._global_const(c, visiting)
+            if g is not None:
+                return g
             return ast.Name(id=c or ident, ctx=ast.Load())
         if scope is not func:
             # closure variable of an enclosing function: keep symbolic
@@ -144,6 +172,27 @@ class Expander:
         if len(uniq) == 1:
             return uniq[0]
         return mk('__phi__', *uniq)
+
+    def _global_const(self, c, visiting):
+        """Expand a module-level constant `pkg.mod.NAME = <small expression>` (assigned once at top level)."""
+        if not c or not self.expand_globals or ('g', c) in visiting:
+            return None
+        modname, _, name = c.rpartition('.')
+        m = self.prog.modules.get(modname)
+        if m is None or name not in m.assigns or m.toplevel.get(name) != 'var':
+            return None
+        val = m.assigns[name]
+        n_assign = sum(1 for st in ast.walk(m.tree) if isinstance(st, (ast.Assign, ast.AugAssign)) and any(
+            isinstance(t, ast.Name) and t.id == name for t in (st.targets if isinstance(st, ast.Assign) else [st.target])))
+        if n_assign != 1 or sum(1 for _ in ast.walk(val)) > 80:
+            return None
+        sub = Expander(self.prog, m, expand_self=False)
+        r = sub._exp(val, None, visiting | {('g', c)}, frozenset())
+        try:
+            r._global = c
+        except Exception:
+            pass
+        return r
 
     def _def_value(self, d, ident, visiting, bound):
         s = d.ast
@@ -202,10 +251,7 @@ class Expander:
                             and not any(isinstance(x, ast.Starred) for x in value.elts):
                         return self._from_target(e, value.elts[i], ident, d, visiting, bound)
                     whole = self._exp(value, d, visiting, bound)
-                    if isinstance(whole, (ast.Tuple, ast.List)) and len(whole.elts) == len(t.elts):
-                        sub = whole.elts[i]
-                    else:
-                        sub = mk('__item__', whole, ast.Constant(i))
+                    sub = mk_item(whole, i)
                     if isinstance(e, (ast.Name, ast.Attribute)):
                         return sub
                     # nested tuple target
@@ -245,6 +291,8 @@ class Expander:
         if isinstance(target, (ast.Tuple, ast.List)):
             for k, e in enumerate(target.elts):
                 if ident in list(target_names(e)):
+                    if isinstance(e, ast.Name) and not any(isinstance(x, ast.Starred) for x in target.elts):
+                        return mk_item(elem_of(it), k)
                     return mk('__item__', elem_of(it), ast.Constant(k))
         return mk('__top__', ast.Constant('loop target ' + ident))
 
@@ -264,6 +312,9 @@ class Expander:
         if isinstance(e, ast.Attribute):
             c = P.canon(self.func, e) if not self._rooted_in_bound(e, bound) else None
             if c is not None and not c.startswith('?undefined'):
+                g = self._global_const(c, visiting)
+                if g is not None:
+                    return g
                 n = ast.Name(id=c, ctx=ast.Load())
                 n._src = e
                 return n
@@ -284,10 +335,12 @@ class Expander:
             kws = [ast.keyword(arg=k.arg, value=self._exp(k.value, node, visiting, bound)) for k in e.keywords]
             n = ast.Call(func=newf, args=args, keywords=kws)
             n._src = e
-            if self.inline_depth > 0:
-                r = self._inline(n, e)
+            if self.inline_depth > 0 or isinstance(newf, ast.Lambda):
+                r = self._inline(n, e, node, visiting, bound)
                 if r is not None:
                     return r
+            if is_marker(n, '__item__') is False and isinstance(newf, ast.Name) and newf.id == '__item__':
+                pass
             return n
         if isinstance(e, ast.Lambda):
             b = bound | set(a.arg for a in e.args.args + e.args.kwonlyargs + e.args.posonlyargs)
@@ -312,6 +365,17 @@ class Expander:
             return n
         if isinstance(e, ast.NamedExpr):
             return self._exp(e.value, node, visiting, bound)
+        if isinstance(e, ast.Subscript) and isinstance(e.ctx, ast.Load) and isinstance(e.slice, ast.Constant) \
+                and isinstance(e.slice.value, int) and not isinstance(e.slice.value, bool):
+            v = self._exp(e.value, node, visiting, bound)
+            if is_marker(v, '__elem__'):
+                r = mk_item(v, e.slice.value)
+                if not is_marker(r, '__item__'):
+                    r._src = e
+                    return r
+            n = ast.Subscript(value=v, slice=e.slice, ctx=ast.Load())
+            n._src = e
+            return n
         if isinstance(e, ast.expr) or isinstance(e, (ast.slice if hasattr(ast, 'slice') else ast.expr,)):
             n = copy.copy(e)
             for field, val in ast.iter_fields(e):
@@ -359,7 +423,34 @@ class Expander:
         return mk('__phi__', *uniq)
 
     # -------------------------------------------------------------- inlining
-    def _inline(self, newcall, orig):
+    def _beta(self, lam, call):
+        """(lambda a, b: body)(x, y) -> body[a:=x, b:=y]"""
+        ps = [a.arg for a in lam.args.posonlyargs + lam.args.args]
+        if len(call.args) > len(ps) or any(isinstance(a, ast.Starred) for a in call.args) or lam.args.vararg or lam.args.kwarg:
+            return None
+        m = dict(zip(ps, call.args))
+        for k in call.keywords:
+            if k.arg in ps and k.arg not in m:
+                m[k.arg] = k.value
+        defaults = lam.args.defaults
+        for p_, d_ in zip(ps[len(ps) - len(defaults):], defaults):
+            m.setdefault(p_, d_)
+        if set(m) != set(ps):
+            return None
+        from .sym import clone
+
+        def leaf(n):
+            if isinstance(n, ast.Name) and n.id in m and not getattr(n, '_param', False):
+                return clone(m[n.id])
+            return None
+        return clone(lam.body, leaf)
+
+    def _inline(self, newcall, orig, node=None, visiting=frozenset(), bound=frozenset()):
+        if isinstance(newcall.func, ast.Lambda):
+            r = self._beta(newcall.func, newcall)
+            if r is not None:
+                r._src = orig
+            return r
         name = dotted(newcall.func)
         callee = None
         bound_method = None
@@ -376,21 +467,42 @@ class Expander:
             return None
         if self.inline_filter is not None and not self.inline_filter(callee):
             return None
-        rets = [n for n in _returns(callee.node) if n.value is not None]
-        if len(rets) != 1:
+        allrets = _returns(callee.node)
+        rets = [n for n in allrets if n.value is not None]
+        if not rets or len(rets) != len(allrets) or len(rets) > 4:
+            return None
+        # a function that can fall off its end has an implicit None return: not inlined
+        if any(lab == 'fall' for p_, lab in callee.cfg.exit.pred):
             return None
         m, ok = bind_args(callee, newcall, bound_method=bound_method)
         if not ok:
             return None
         sub = Expander(self.prog, callee, inline_depth=self.inline_depth - 1, inline_filter=self.inline_filter,
                        expand_self=self.expand_self)
-        body = sub.expand(rets[0].value)
+        bodies = [sub.expand(r_.value) for r_ in rets]
+        if len(bodies) == 1:
+            body = bodies[0]
+        else:
+            uniq, seen = [], set()
+            for b_ in bodies:
+                t_ = u(b_)
+                if t_ not in seen:
+                    seen.add(t_)
+                    uniq.append(b_)
+            body = uniq[0] if len(uniq) == 1 else mk('__phi__', *uniq)
         self.tops.extend(sub.tops)
         params = set(callee.params)
 
         from .sym import clone
 
+        nested_here = callee.parent is self.func
+
         def leaf(n):
+            if nested_here and isinstance(n, ast.Name) and n.id.startswith('<closure>.') and node is not None:
+                # a helper defined inside this function reads this function's variable: its value at the call
+                ident = n.id[len('<closure>.'):]
+                if ident in self.func.locals:
+                    return self._name(ident, node, visiting, bound, None)
             if isinstance(n, ast.Name) and getattr(n, '_param', False) and n.id in params:
                 if n.id in m:
                     return clone(m[n.id])
